@@ -157,3 +157,7 @@ impl<Path: path::Handle> tx::Message for &Transmission<Path> {
         buffer.write(self.as_ref())
     }
 }
+
+#[cfg(all(aws_s2n_quic_verif, any(test, all(kani, feature = "testing"))))]
+#[path = "/verif/harness/transport/stateless_reset_dispatch.rs"]
+mod verif;
